@@ -100,10 +100,9 @@ Section Local2.
       rewrite Hm, Hd. eauto. }
     destruct Hp as (e & He & Hn).
     unfold CoreExec.exec. destruct c; cbn in Hc; try discriminate; inversion Hc; subst; cbn [call_handle]; rewrite emit_uref;
-      (destruct (Nat.eqb (uref_count w m) 0); [apply refused_intro; auto|]); unfold exec_call;
-      change (mod_assert_perm (emit w ?t) m m_denypub) with (mod_assert_perm w m m_denypub);
+      (destruct (Nat.eqb (uref_count w m) 0); [apply refused_intro; auto|]); unfold exec_call; unfold retp, tell_step;
       match goal with |- context [mod_assert_perm ?ww m m_denypub] => change (mod_assert_perm ww m m_denypub) with (mod_assert_perm w m m_denypub) end;
-      rewrite He; apply refused_intro; auto.
+      rewrite He; cbn [fst snd]; apply refused_intro; auto.
   Qed.
 
   Theorem deny_sub_refused cur w c m mr : sub_call c = Some m -> get_mod w m = Some mr -> m_denysub mr = true ->
